@@ -26,15 +26,19 @@ Definition C05_check (c : C05_case) : verdict :=
              (if res_eqb m Err then OK else DIVERGE "merge-outcome") else OK
   | Ok r =>
       if clashb d o then PROPFAIL "type-clash-not-reported" else
-      if negb (res_eqb m (Ok r)) then DIVERGE "merge-result" else
-      if negb (H1b d o l) then SKIP "outside-H" else
+      (* the laws are judged on the implementation's own result, before it is compared with the model's *)
+      if negb (H1b d o l) then (if negb (res_eqb m (Ok r)) then DIVERGE "merge-result" else SKIP "outside-H") else
       let suffix := if negb (Hb d o l) then "-crosskey" else if negb (null_okb d o l) then "-null-over-listmap" else "" in
       match first_fail [("containment", containsb d r);
                         ("removal", removedb d o l r);
                         ("preservation", preservedb d o l r);
                         ("idempotence", res_eqb (c_impl2 c) (Ok r))] with
       | Some n => PROPFAIL (n ++ suffix)
-      | None => OK
+      | None => if negb (res_eqb m (Ok r)) then
+                  (* where the model reports a clash (one inside a list-map item, which clashb does not
+                     descend into) and the implementation returned a value, the clash was dropped *)
+                  (if res_eqb m Err then PROPFAIL "type-clash-not-reported" else DIVERGE "merge-result")
+                else OK
       end
   end.
 
